@@ -61,7 +61,7 @@ class Gates:
                 waited = 0.0
                 while not self.cv.wait_for(self._settled, timeout=0.5):
                     waited += 0.5
-                    if self.blocked:
+                    if self.blocked and waited >= 1.5:
                         # the code under test does not follow the expected gate protocol (e.g. it synchronises a design twice):
                         # keep it moving in arrival order -- the recorded trace is judged, not the schedule
                         self.realised = False
@@ -87,7 +87,8 @@ class Gates:
                     self.realised = False       # the dispatcher cannot reach this step now: fall back to arrival order
                     break
                 if want is None:
-                    want = sorted(key for key, _ in self.blocked)[0]
+                    # unsteered from here: NOT the submission order (that is the one order careless code gets right) -- the highest design first
+                    want = sorted((key for key, _ in self.blocked), key=lambda kk: (kk[1], kk[0]))[-1]
                 i = next(i for i, (key, _) in enumerate(self.blocked) if key == want)
                 ev = self.blocked.pop(i)[1]
                 self.order.append(want)
